@@ -85,7 +85,8 @@ SCHEMAS = {
         'classes': ['T', 'V', 'S'],
         'attrs': {'T': [at('Id', ID)], 'V': [at('Id', ID)], 'S': [at('Id', ID), at('X_Id', ID)]},
         'assocs': [A('R8', 'S', ['X_Id'], 'MC', 'T', ['Id'], '1C'),
-                   A('R9', 'S', ['X_Id'], '1C', 'V', ['Id'], '1C')],
+                   # (the later association is unconditional towards V: an S without a V still reads X_Id through R8)
+                   A('R9', 'S', ['X_Id'], '1C', 'V', ['Id'], '1')],
         'uniques': {'T': [U('I1', 'Id')], 'V': [U('I1', 'Id')], 'S': [U('I1', 'Id')]},
     },
     # plain, identifying and referential attributes of every core type
@@ -236,13 +237,14 @@ POOLS = {
     'INTEGER': ['i:-3', 'i:0', 'i:1', 'i:2', 'i:7'],
     'STRING': ['s:', 's:A', 's:a', 's:b', 's:bb'],
     'BOOLEAN': ['b:0', 'b:1'],
-    'REAL': ['r:-1.5', 'r:0.0', 'r:0.5', 'r:2.25'],
+    'REAL': ['r:-1.5', 'r:-0.5', 'r:-0.25', 'r:0.0', 'r:0.5', 'r:2.25'],
     'UNIQUE_ID': ['u:0'] + ['u:%d' % i for i in range(1, 120)],
 }
 
 
 # reals and the token of what the six-decimal text form reads back as
-REALNORM = {'r:-1.5': 'r:-1.5', 'r:0.0': 'r:0.0', 'r:0.5': 'r:0.5', 'r:2.25': 'r:2.25',
+REALNORM = {'r:-1.5': 'r:-1.5', 'r:0.0': 'r:0.0', 'r:0.5': 'r:0.5', 'r:2.25': 'r:2.25', 'r:-0.5': 'r:-0.5', 'r:-0.25': 'r:-0.25',
+            'r:-0.999999': 'r:-0.999999', 'r:-0.0625': 'r:-0.0625',
             'r:0.1234567': 'r:0.123457', 'r:-7.0000004': 'r:-7.0', 'r:1e+20': 'r:1e+20', 'r:12345678.9': 'r:12345678.9'}
 
 
